@@ -58,11 +58,17 @@ impl<'a> RedefinitionChecker<'a> {
 
         // Modules are reopened, not redefined, but a definition cannot share its fully-scoped identifier with a module:
         // both would claim the same name (ex: 'module A::B' and a 'struct B' in 'module A'), and which of the two a
-        // reference resolved to would depend on the order the files were parsed in.
+        // reference resolved to would depend on the order the files were parsed in. A nested module declaration
+        // also declares its enclosing modules ('module A::B::C' declares 'A', 'A::B', and 'A::B::C').
         for node in ast.as_slice() {
             if let Node::Module(module_ptr) = node {
                 let module: &dyn NamedSymbol = module_ptr.borrow();
-                seen_definitions.entry(module.parser_scoped_identifier()).or_insert(module);
+                let module_identifier = module.parser_scoped_identifier();
+                let separators = module_identifier.match_indices("::").map(|(index, _)| index);
+                for prefix_end in separators.chain(std::iter::once(module_identifier.len())) {
+                    let enclosing_module_identifier = module_identifier[..prefix_end].to_owned();
+                    seen_definitions.entry(enclosing_module_identifier).or_insert(module);
+                }
             }
         }
 
